@@ -18,6 +18,6 @@ package env
 //@ ghost var osHas bool scratch
 //@ func GetFromVars
 //@   site (Experiment).Enabled#1 ghost expOn := result
-//@   site os.LookupEnv#1 requires arg0 == k                                                          [C10]
+//@   site os.LookupEnv#0 requires arg0 == k                                                          [C10]
 //@   site os.LookupEnv#1 ghost osHas := result.1
-//@   site append#1 requires expOn || !osHas                                                          [C10]
+//@   site append#0 requires expOn || !osHas                                                          [C10]
